@@ -77,3 +77,79 @@ theorem lowerUC_idem (c : Char) : lowerUC (lowerUC c) = lowerUC c := by
   | cons c s ih => simp only [lowerU, List.map_cons, List.map_map] at ih ⊢; simp [lowerUC_idem, ih]
 
 end Pybtex
+
+namespace Pybtex
+
+/-- on ASCII the Unicode lower-casing absorbs the ASCII case changes (kernel evaluation over the 128 code points) -/
+theorem lowerUC_ascii_absorbs :
+    (List.range 128).all (fun n =>
+      lowerUC (lowerC (Char.ofNat n)) == lowerUC (Char.ofNat n) &&
+      lowerUC (upperC (Char.ofNat n)) == lowerUC (Char.ofNat n) &&
+      lowerUC (Char.ofNat n) == lowerC (Char.ofNat n)) = true := by
+  decide +kernel
+
+theorem lowerC_of_ge128 (c : Char) (h : ¬ c.toNat < 128) : lowerC c = c := by
+  unfold lowerC Char.toLower
+  split
+  · next h' =>
+    exfalso
+    have := UInt32.le_iff_toNat_le.1 h'.2
+    simp only [Char.toNat] at h
+    have h2 : 'Z'.val.toNat = 90 := by decide
+    omega
+  · rfl
+
+theorem upperC_of_ge128 (c : Char) (h : ¬ c.toNat < 128) : upperC c = c := by
+  unfold upperC Char.toUpper
+  split
+  · next h' =>
+    exfalso
+    have := UInt32.le_iff_toNat_le.1 h'.2
+    simp only [Char.toNat] at h
+    have h2 : 'z'.val.toNat = 122 := by decide
+    omega
+  · rfl
+
+theorem lowerUC_lowerC (c : Char) : lowerUC (lowerC c) = lowerUC c := by
+  by_cases h : c.toNat < 128
+  · have := lowerUC_ascii_absorbs
+    simp only [List.all_eq_true, List.mem_range, Bool.and_eq_true, beq_iff_eq] at this
+    have h1 := (this c.toNat h).1.1
+    rwa [Char.ofNat_toNat] at h1
+  · rw [lowerC_of_ge128 c h]
+
+theorem lowerUC_upperC (c : Char) : lowerUC (upperC c) = lowerUC c := by
+  by_cases h : c.toNat < 128
+  · have := lowerUC_ascii_absorbs
+    simp only [List.all_eq_true, List.mem_range, Bool.and_eq_true, beq_iff_eq] at this
+    have h1 := (this c.toNat h).1.2
+    rwa [Char.ofNat_toNat] at h1
+  · rw [upperC_of_ge128 c h]
+
+/-- on ASCII characters the two lower-casings agree -/
+theorem lowerUC_ascii (c : Char) (h : c.toNat < 128) : lowerUC c = lowerC c := by
+  have := lowerUC_ascii_absorbs
+  simp only [List.all_eq_true, List.mem_range, Bool.and_eq_true, beq_iff_eq] at this
+  have h1 := (this c.toNat h).2
+  rwa [Char.ofNat_toNat] at h1
+
+@[simp] theorem lowerU_nil : lowerU [] = [] := rfl
+@[simp] theorem lowerU_cons (c : Char) (s : Str) : lowerU (c :: s) = lowerUC c :: lowerU s := rfl
+@[simp] theorem lowerU_append (a b : Str) : lowerU (a ++ b) = lowerU a ++ lowerU b := by simp [lowerU]
+@[simp] theorem lowerU_length (s : Str) : (lowerU s).length = s.length := by simp [lowerU]
+
+@[simp] theorem lowerU_lower (s : Str) : lowerU (lower s) = lowerU s := by
+  induction s with
+  | nil => rfl
+  | cons c s ih => simp only [lower_cons, lowerU_cons, lowerUC_lowerC, ih]
+
+@[simp] theorem lowerU_upper (s : Str) : lowerU (upper s) = lowerU s := by
+  induction s with
+  | nil => rfl
+  | cons c s ih => simp only [upper, List.map_cons, lowerU_cons, lowerUC_upperC] at ih ⊢; rw [ih]
+
+/-- strings equal up to ASCII case are equal up to Unicode case -/
+theorem lowerU_of_lower {a b : Str} (h : lower a = lower b) : lowerU a = lowerU b := by
+  rw [← lowerU_lower a, h, lowerU_lower]
+
+end Pybtex
